@@ -17,7 +17,7 @@ from ref7z import coders as RC
 from ref7z import reader as RR
 from ref7z import writer as RW
 from vlib import arch
-from vlib.runner import Check, HarnessError, Outcome
+from vlib.runner import Check, HarnessError, Outcome, REPO
 
 import py7zr
 from py7zr.io import BytesIOFactory
@@ -134,7 +134,7 @@ class C06(Check):
 
     def enumerated(self, env):
         i = 0
-        for p in sorted(glob.glob("/repo/tests/data/*.7z")):
+        for p in sorted(glob.glob(os.path.join(REPO, "tests/data/*.7z"))):
             i += 1
             if env.mine(i):
                 yield {"fixture": os.path.basename(p)}
@@ -372,7 +372,7 @@ class C06(Check):
 
     def _fixture(self, case, env, out):
         name = case["fixture"]
-        path = os.path.join("/repo/tests/data", name)
+        path = os.path.join(REPO, "tests/data", name)
         pw = FIXTURE_PW.get(name)
         out.label("fixture")
         out.descriptor = ("fixture", name)
